@@ -19,7 +19,8 @@ class EqValue(GenericValue):
         if compare_only():
             # the result is only used to align two sequences,
             # it should not depend on the flags or be counted as a failed comparison
-            return self._old_value == other
+            # (an empty inner snapshot accepts every value)
+            return self._old_value is undefined or self._old_value == other
 
         if self._old_value is undefined:
             state().missing_values += 1
